@@ -88,6 +88,7 @@ C04.vis: parts that are not PER-visible (X.691 10.3.21; a PATTERN constraint sta
     precedence(m, ctx, "C04.prec", true);
     element_constraints(m, ctx);
     open_ends(m, ctx);
+    size_marker(m, ctx);
     crate::rules::c09::value_chain(m, ctx, "C04.scope");
     let consts = const_resolver(m);
     let inl = inline_all(m, &["ASN1Value"]);
@@ -1206,4 +1207,83 @@ fn open_ends(m: &Model, ctx: &mut Ctx) {
         }
     }
     ctx.floor("C04.open/end-point-terminals", sites, 4);
+}
+
+
+/// C04.sizemarker — `SIZE ((1..5), ...)`, `SIZE (1..5 | 7, ...)`: the operand of SIZE is a whole constraint with its own
+/// extension marker; the conversion that turns it into the SIZE element (TryFrom<Constraint> for SubtypeElements) keeps the
+/// element set — the marker has to survive in it (on an element of the set: the fold takes the disjunction), and must not
+/// appear when it was not written.
+fn size_marker(m: &Model, ctx: &mut Ctx) {
+    use std::collections::BTreeMap as Map;
+    let rule = "C04.sizemarker";
+    let f = m.fns.iter().find(|f| f.name == "try_from" && f.self_ty.as_deref() == Some("SubtypeElements") && f.trait_.as_deref().map(|t| t.contains("Constraint")).unwrap_or(false));
+    let Some(f) = f else {
+        ctx.fail_closed(rule, "anchor not found: TryFrom<Constraint> for SubtypeElements");
+        return;
+    };
+    ctx.func(&f.key);
+    let consts = const_resolver(m);
+    let inl = inline_all(m, &["ElementOrSetOperation", "SubtypeElements", "ElementSetSpecs", "SetOperation"]);
+    let hook = |_: &Evaluator, name: &str, a: &[Val]| -> Option<Result<Val, String>> {
+        match name {
+            "Box::new" if a.len() == 1 => Some(Ok(Val::Ctor("Box".into(), vec![a[0].clone()], Map::new()))),
+            ".as_mut" | ".as_ref" if a.len() == 1 => Some(Ok(a[0].clone())),
+            _ => None,
+        }
+    };
+    let ev = Evaluator { consts: &consts, call_hook: &hook, inline: Some(&inl) };
+    let int = |v: i128| Val::Ctor("Integer".into(), vec![Val::int(v)], Map::new());
+    let range = |lo: i128, hi: i128| {
+        let mut fm = Map::new();
+        fm.insert("min".to_string(), Val::some(int(lo)));
+        fm.insert("max".to_string(), Val::some(int(hi)));
+        fm.insert("extensible".to_string(), Val::Bool(false));
+        Val::Ctor("ValueRange".into(), vec![], fm)
+    };
+    let single = |v: i128| {
+        let mut fm = Map::new();
+        fm.insert("value".to_string(), int(v));
+        fm.insert("extensible".to_string(), Val::Bool(false));
+        Val::Ctor("SingleValue".into(), vec![], fm)
+    };
+    let element = |e: Val| Val::Ctor("Element".into(), vec![e], Map::new());
+    let setop = |base: Val, operant: Val| {
+        let mut setf = Map::new();
+        setf.insert("base".to_string(), base);
+        setf.insert("operator".to_string(), Val::ctor("Union"));
+        setf.insert("operant".to_string(), Val::Ctor("Box".into(), vec![element(operant)], Map::new()));
+        Val::Ctor("SetOperation".into(), vec![Val::Ctor("SetOperation".into(), vec![], setf)], Map::new())
+    };
+    fn any_ext(v: &Val) -> bool {
+        match v {
+            Val::Ctor(_, p, f) => f.get("extensible") == Some(&Val::Bool(true)) || p.iter().any(any_ext) || f.values().any(any_ext),
+            Val::List(l) | Val::Tuple(l) => l.iter().any(any_ext),
+            _ => false,
+        }
+    }
+    let p = f.sig.inputs.iter().filter_map(|a| match a { syn::FnArg::Typed(t) => Some(tok(&t.pat).replace("mut ", "")), _ => None }).next().unwrap_or("value".into());
+    for (what, set) in [("SIZE ((1..5), ...)", element(range(1, 5))), ("SIZE ((4), ...)", element(single(4))), ("SIZE (1..5 | 7, ...)", setop(range(1, 5), single(7)))] {
+        for marker in [true, false] {
+            let shown = if marker { what.to_string() } else { what.replace(", ...", "") };
+            ctx.oblige(rule, &shown, true);
+            let mut spec = Map::new();
+            spec.insert("set".to_string(), set.clone());
+            spec.insert("extensible".to_string(), Val::Bool(marker));
+            let c = Val::Ctor("Subtype".into(), vec![Val::Ctor("ElementSetSpecs".into(), vec![], spec)], Map::new());
+            let mut env = Env::new();
+            env.insert(p.clone(), c);
+            match ev.eval_fn_body(&f.block, &mut env) {
+                Ok(Val::Ctor(ok, q, _)) if ok == "Ok" => {
+                    let got = q.first().map(any_ext).unwrap_or(false);
+                    if got != marker {
+                        ctx.violate(rule, if marker { "marker-lost" } else { "marker-invented" }, &f.file, f.line,
+                            &format!("{} becomes {} — {}: the emitted size bound is flagged extensible exactly when the constraint carries an extension marker", shown, q.first().map(|v| v.show()).unwrap_or_default().chars().take(160).collect::<String>(), if marker { "the extension marker of the operand is gone" } else { "an extension marker appears that was not written" }));
+                    }
+                }
+                Ok(o) => ctx.fail_closed(rule, &format!("[{}]: {}", shown, o.show().chars().take(120).collect::<String>())),
+                Err(e) => ctx.fail_closed(rule, &format!("[{}]: {}", shown, e)),
+            }
+        }
+    }
 }
